@@ -382,6 +382,38 @@ OVERLAY_HOOKS = [
 ]
 
 
+DROPPED = {}   # harness name -> reason: harnesses of sections whose private unit no longer exists in the working tree
+
+
+def filter_sections(text, src):
+    """A harness file may mark blocks   // @begin needs: <regex> ;; <regex>   ...   // @end   . A block is kept only if every
+    regex matches the (whitespace-normalised) source of the module it is compiled into: a refactor that removes or re-types a private
+    unit then costs the harnesses written against that unit (reported, never a pass) instead of the whole harness file."""
+    norm = re.sub(r'\s+', ' ', src)
+    out, i = [], 0
+    lines = text.split('\n')
+    while i < len(lines):
+        m = re.match(r'\s*// @begin needs: (.*)$', lines[i])
+        if not m:
+            out.append(lines[i])
+            i += 1
+            continue
+        needs = [x.strip() for x in m.group(1).split(';;') if x.strip()]
+        j = i + 1
+        while j < len(lines) and not re.match(r'\s*// @end', lines[j]):
+            j += 1
+        block = lines[i:j + 1]
+        missing = [n for n in needs if not re.search(n, norm)]
+        if missing:
+            btxt = '\n'.join(block)
+            for h in re.findall(r'#\[kani::proof\](?:\s*#\[[^\n]*\])*\s*fn (\w+)', btxt):
+                DROPPED[h] = 'the working tree has no item matching ' + ' / '.join(missing)
+        else:
+            out += block
+        i = j + 1
+    return '\n'.join(out)
+
+
 def build_overlay(dst, kani=True, replay=True, allow_unsafe=False):
     """scratch copy of /repo's working tree + add-only child modules (never written to /repo)"""
     copy_repo(dst)
@@ -393,7 +425,8 @@ def build_overlay(dst, kani=True, replay=True, allow_unsafe=False):
         kp = os.path.join(VERIF, kfile)
         if kani and os.path.exists(kp):
             os.makedirs(os.path.join(dst, childdir), exist_ok=True)
-            shutil.copy(kp, os.path.join(dst, childdir, 'verif_kani.rs'))
+            with open(os.path.join(dst, childdir, 'verif_kani.rs'), 'w') as fh:
+                fh.write(filter_sections(open(kp).read(), open(p).read()))
             add += '\n#[cfg(kani)]\npub(crate) mod verif_kani;\n'
         if replay and rfile:
             os.makedirs(os.path.join(dst, childdir), exist_ok=True)
